@@ -16,7 +16,7 @@ LEVEL_TEXT = ('Lean 4 theorems, for all shapes, masks, amplitudes and OPDs — t
               'add up to the phasor of the global mask, also with overlapping bounding boxes; a plane multiplies the summed embedding by its '
               'transmission, so chains of planes give the same total field for both descriptions; propagate_dft is additive in the embedded '
               'field; intensity is the squared modulus of the coherent sum; composed end to end (segmented_eq_monolithic_end_to_end): '
-              'a fresh wavefront through any non-empty chain of array-masked partitioned planes, then propagate_dft as the driver models it (generated window block and shapes, a tilt shift common to all fields, optional output mask: segmented_eq_monolithic_propagateDft) -> equal Wavefront.field and intensity at every sample; well-formedness follows from the masks alone for constructed planes (splitPlane_wf_of_masks); Tilt planes anywhere in the chain and Wavefront(tilt=) as ONE theorem (segmented_eq_monolithic_interleaved: every field carries each Tilt once, data unchanged); through propagate_fft by composition with C09 (segmented_eq_monolithic_propagate_fft: the complex field only, under the hypotheses that propagate_fft answers FftOut.ok for both descriptions with the same reported wavelength, grid and output shape; no sampled class in this harness); chain_exp: the explicit product of amplitude*exp(2 pi i opd/lambda) over the planes. The NumPy plumbing is a hand model checked against the '
+              'a fresh wavefront through any non-empty chain of array-masked partitioned planes, then propagate_dft as the driver models it (generated window block and shapes, a tilt shift common to all fields, optional output mask: segmented_eq_monolithic_propagateDft) -> equal Wavefront.field and intensity at every sample; well-formedness follows from the masks alone for constructed planes (splitPlane_wf_of_masks); Tilt planes anywhere in the chain and Wavefront(tilt=) as ONE theorem (segmented_eq_monolithic_interleaved: every field carries each Tilt once, data unchanged); through propagate_fft by composition with C09 (segmented_eq_monolithic_propagate_fft and …_intensity: under the hypotheses that propagate_fft answers FftOut.ok for both descriptions with the same reported wavelength, grid and output shape; no sampled class in this harness); a masked plane after the propagation keeps the equality (plane_after_propagation); segments with their own fitted tilts sum to the monolithic propagation on the common window (fitted_tilts_eq_monolithic, with C04); chain_exp: the explicit product of amplitude*exp(2 pi i opd/lambda) over the planes. The NumPy plumbing is a hand model checked against the '
               'implementation, with both descriptions run on the real code.')
 LEVEL_NOTE = ('Partial: segments / intermediate fields with exactly one element are excluded by hypothesis (open known finding '
               'KF-C03-one-pixel-segment — not repaired because C06 as given makes a (1,1) array a broadcastable constant, so the two properties conflict on that input; the hypothesis ExtOK is evaluated by the model (c03.extok, extOKb_iff) on every case of the classes the ExtOK theorems cover: segmented-vs-monolithic chains in both number systems and the mixed Tilt/segmented chains; not for the fitted-tilt, re-use and big-aperture classes); the theorems '
@@ -37,8 +37,8 @@ TRUSTED = ['the bounding box of propagate_dft\'s output mask is computed by the 
            'np.dot / einsum in fourier.dft2 compute the sums of products (Model/Fourier.lean; C01 checks dft2 itself)',
            'np.exp(1j*t) = cos t + i sin t']
 UNPROVEN = [
-            'propagate_fft: segmented_eq_monolithic_propagate_fft covers Wavefront.field only (not the intensity), is conditional on both calls returning FftOut.ok with the same lam/S0/S1/so, has no non-vacuity example of those hypotheses in Props/C03.lean (C09 has one for propagateFft itself) and no correspondence or oracle class in c03.py (propagate_fft itself is C09)',
-            'per-segment FITTED tilts (fit_tilt: a different shift per field, windows that crop each segment differently) have no segmented = monolithic theorem — with prop_shape < shape the two descriptions are genuinely different computations; that class is covered by correspondence (c03.chain over builderB Model/Propagate.lean, Model/Tilt.lean) and by the oracle (coherent sum; windowed chip = window of the full propagation), tilt-as-metadata = tilt-in-OPD is C04',
+            'propagate_fft: segmented_eq_monolithic_propagate_fft (field) and segmented_eq_monolithic_propagate_fft_intensity (intensity, for returned fields of positive shape) are conditional on both calls returning FftOut.ok with the same lam/S0/S1/so, has no non-vacuity example of those hypotheses in Props/C03.lean (C09 has one for propagateFft itself) and no correspondence or oracle class in c03.py (propagate_fft itself is C09)',
+            'per-segment FITTED tilts (fit_tilt: a different shift and window per field): fitted_tilts_eq_monolithic (C04 segmented_tilt_equiv_complex composed with propagateField_linear) proves that the segment fields sum to the propagation of the monolithic description at every output coordinate lying in ALL segment windows and in the tilt-free window; outside that common window the two computations crop differently — no equality is claimed there (correspondence via c03.chain and the oracle cover the class as generated)',
             'the end-to-end theorems start from a fresh wavefront and use planes with array masks (scalar-mask planes inside the chain: plane_multiply_total only)',
             'planes re-used after the amplitude/OPD setters and copy(), and rescaled/resampled planes (bounding slices of the new mask): oracle only; the interpolation itself is C17',
             'partitions containing a segment (or producing an intermediate field) with exactly one element (known finding KF-C03-one-pixel-segment)']
